@@ -1,5 +1,7 @@
 package main
 
+func init() { generators = append(generators, genVersion) }
+
 func genVersion() {
 	const rel = "pkg/apk/apk/version.go"
 	f := load(rel)
